@@ -15,7 +15,14 @@ open Model.PhyArith
 namespace Driver.C17
 
 def sfOf? (n : Int) : Option SpreadingFactor := SpreadingFactor.all.find? (fun s => s.factor == n)
-def bwOf? (n : Int) : Option Bandwidth := Bandwidth.all.find? (fun b => b.hz == n)
+def bwOf? (n : Int) : Option Bandwidth :=
+  -- op lines name a bandwidth by the datasheet's figure in Hz (the C13 harness's own table, legacy replays)
+  -- or by the crate's current `hz()`
+  match n with
+  | 7810 => some ._7KHz | 10420 => some ._10KHz | 15630 => some ._15KHz | 20830 => some ._20KHz
+  | 31250 => some ._31KHz | 41670 => some ._41KHz | 62500 => some ._62KHz | 125000 => some ._125KHz
+  | 250000 => some ._250KHz | 500000 => some ._500KHz
+  | _ => Bandwidth.all.find? (fun b => b.hz == n)
 
 /-- `a,b,-,c` → `[some a, some b, none, some c]`; `none` if a field is neither `-` nor an integer -/
 def parseObs (s : String) : Option (List (Option Int)) :=
